@@ -9,7 +9,8 @@ Import ListNotations.
 (* Closed: every field's type exists and is an output type (on objects and interfaces) or an
    input type (on input objects); every argument's type exists and is an input type; every
    union member exists and is an object; every implemented interface exists and is an
-   interface; every root operation type exists; the same for directive definitions' arguments.
+   interface; every root operation type exists and is an object type; the same for directive
+   definitions' arguments.
    (The two introspection fields the loader appends to the query root are exempted here; with
    the real prelude their types exist, see C07_builtins_present.) *)
 Theorem C07_loaded_closed : forall d pre srcs s, load_schema_with d pre srcs = Some s -> closed s.
